@@ -128,6 +128,8 @@ class MemTransport(asyncio.Transport):
         self.server = None          # object with data_received(bytes) / client_closed()
         self.bytes_written = 0
         self.opened_at = loop.time()
+        self._inflight: list = []
+        self._seq = 0
 
     # asyncio.Transport surface used by msmart
     def get_extra_info(self, name, default=None):
@@ -188,7 +190,20 @@ class MemTransport(asyncio.Transport):
             self._loop.call_soon(self._call_lost, e)
 
     def feed_later(self, delay: float, data: bytes) -> None:
-        self._loop.call_later(delay, self.feed, data)
+        """Schedule one segment; segments are delivered in (time, submission) order like a TCP stream
+        (asyncio's timer heap is not FIFO for equal deadlines, so ordering is kept here)."""
+        import heapq
+        self._seq += 1
+        when = self._loop.time() + max(0.0, delay)
+        heapq.heappush(self._inflight, (when, self._seq, data))
+        self._loop.call_at(when, self._deliver_due)
+
+    def _deliver_due(self) -> None:
+        import heapq
+        now = self._loop.time() + 1e-9
+        while self._inflight and self._inflight[0][0] <= now:
+            _w, _s, data = heapq.heappop(self._inflight)
+            self.feed(data)
 
     def peer_close(self, exc: Optional[Exception] = None) -> None:
         """The peer closed (FIN) or reset (exc) the connection."""
